@@ -364,6 +364,24 @@ func c13RemoveStyling(m c13Model, key uint64) fw.Outcome {
 			}
 		}
 	}
+	// stripping again after a styled list was merged in must strip again, and must not touch other stripped lists
+	witness := astisub.NewSubtitles()
+	witness.RemoveStyling()
+	styled := astisub.NewSubtitles()
+	styled.Styles["zz"] = &astisub.Style{ID: "zz", InlineStyle: &astisub.StyleAttributes{}}
+	styled.Regions["zr"] = &astisub.Region{ID: "zr", InlineStyle: &astisub.StyleAttributes{}}
+	styled.Items = []*astisub.Item{{StartAt: time.Second, EndAt: 2 * time.Second, Style: styled.Styles["zz"], Region: styled.Regions["zr"], Lines: []astisub.Line{{Items: []astisub.LineItem{{Text: "x", Style: styled.Styles["zz"]}}}}}}
+	if p := guard(func() { s.Merge(styled); s.RemoveStyling() }); p != "" {
+		return fw.Bad(key, m.desc, "RemoveStyling, Merge, RemoveStyling: %s", p)
+	}
+	if len(s.Regions) != 0 || len(s.Styles) != 0 || len(witness.Regions) != 0 || len(witness.Styles) != 0 {
+		return fw.Bad(key, m.desc, "after RemoveStyling, Merge of a styled list and RemoveStyling again: %d regions / %d styles left in the list, %d / %d appeared in another stripped list", len(s.Regions), len(s.Styles), len(witness.Regions), len(witness.Styles))
+	}
+	for _, it := range s.Items {
+		if it.Region != nil || it.Style != nil {
+			return fw.Bad(key, m.desc, "RemoveStyling after a Merge left a region or style on a cue")
+		}
+	}
 	return fw.OK(key, nil)
 }
 
